@@ -999,8 +999,20 @@ class Host(utils.EventEmitter):
 
     def on_transport_lost(self):
         # Called by the source when the transport has been lost.
-        if self.pending_response:
+        if self.pending_response and not self.pending_response.done():
             self.pending_response.set_exception(TransportLostError('transport lost'))
+
+        # All the links are gone with the transport
+        for handle in (
+            list(self.connections) + list(self.cis_links) + list(self.sco_links)
+        ):
+            self.on_hci_disconnection_complete_event(
+                hci.HCI_Disconnection_Complete_Event(
+                    status=hci.HCI_SUCCESS,
+                    connection_handle=handle,
+                    reason=hci.HCI_CONNECTION_TIMEOUT_ERROR,
+                )
+            )
 
         self.emit('flush')
 
